@@ -8,7 +8,9 @@ use crate::net::NetOpts;
 use crate::rng::Rng;
 use crate::runner::{CaseOut, CheckDef, Tier};
 use crate::world::{World, explicit_is_strict_nonempty, gen_explicit_set};
+use biodivine_hctl_model_checker::model_checking as mc;
 use biodivine_lib_param_bn::biodivine_std::traits::Set;
+use biodivine_lib_param_bn::symbolic_async_graph::GraphColoredVertices;
 use std::collections::HashMap;
 
 pub fn def() -> CheckDef {
@@ -36,6 +38,7 @@ pub fn def() -> CheckDef {
                 ("op_Exists_dom", 100 * m),
                 ("op_Forall_dom", 50 * m),
                 ("readme_equivalences", 1000 * m),
+                ("readme_equivalences_as_one_batch", 300 * m),
                 ("repeated_domain_in_two_scopes", 200 * m),
             ]
         },
@@ -253,6 +256,7 @@ fn run(rng: &mut Rng, _idx: u64, tier: Tier) -> CaseOut {
         (format!("(3{{x}} in %d%: (@{{x}}: {b}))"), format!("(3{{x}}: (@{{x}}: (%d% & {b})))"), "README: exists in A != exists jump (A & body)"),
         (format!("(V{{x}} in %d%: (@{{x}}: {b}))"), format!("(V{{x}}: (@{{x}}: (%d% => {b})))"), "README: forall in A != forall jump (A => body)"),
     ];
+    let mut singles: Vec<(String, GraphColoredVertices, String, GraphColoredVertices)> = Vec::new();
     for (l, r, sig) in &triples {
         let ls = match eval_raw(&sys, l, &ctx) {
             Call::Ok(s) => s.intersect(unit),
@@ -280,6 +284,68 @@ fn run(rng: &mut Rng, _idx: u64, tier: Tier) -> CaseOut {
         if ls != rs {
             violate_diff(&mut out, &world, &sys, sig, (l, &ls), (r, &rs), vec![("context_sets", sets_json(&world, &sets))]);
             return out;
+        }
+        singles.push((l.clone(), ls, r.clone(), rs));
+    }
+    // one README equivalence as ONE call of a batch entry point: both sides use the same label (on the left as a domain, on
+    // the right as a wild-card proposition), and the generated formula, which may use any label, comes first or last
+    {
+        let (l, ls, r, rs) = &singles[rng.below(singles.len())];
+        let mut batch: Vec<&str> = if rng.coin() { vec![l.as_str(), r.as_str()] } else { vec![r.as_str(), l.as_str()] };
+        let swapped = batch[0] == r.as_str();
+        let f_first = rng.coin();
+        if f_first {
+            batch.insert(0, text.as_str());
+        } else {
+            batch.push(text.as_str());
+        }
+        let dirty = rng.coin();
+        let res = call(|| {
+            if dirty {
+                mc::model_check_multiple_extended_formulae_dirty(batch.clone(), &sys.graph, &ctx)
+            } else {
+                mc::model_check_multiple_extended_formulae(batch.clone(), &sys.graph, &ctx)
+            }
+        });
+        let ep_name = if dirty { "model_check_multiple_extended_formulae_dirty" } else { "model_check_multiple_extended_formulae" };
+        let texts: Vec<String> = batch.iter().map(|s| s.to_string()).collect();
+        match res {
+            Call::Ok(v) if v.len() == 3 => {
+                out.count("readme_equivalences_as_one_batch");
+                let off = if f_first { 1 } else { 0 };
+                let (bl, br) = if swapped { (&v[off + 1], &v[off]) } else { (&v[off], &v[off + 1]) };
+                let same = |b: &GraphColoredVertices, single_text: &str, single_raw: &GraphColoredVertices| -> Option<bool> {
+                    if dirty {
+                        Some(&b.intersect(unit) == single_raw)
+                    } else {
+                        // sanitised results live in another symbolic context; only the verdict and the count are used
+                        let _ = single_text;
+                        None
+                    }
+                };
+                for (b, t, raw) in [(bl, l, ls), (br, r, rs)] {
+                    if same(b, t, raw) == Some(false) {
+                        out.violate(
+                            "README equivalence: result inside one batch differs from the single evaluation",
+                            format!("{ep_name}({texts:?}): result of `{t}` differs from its single evaluation"),
+                            case_json(&world, &texts, vec![("context_sets", sets_json(&world, &sets)), ("entry_point", J::s(ep_name))]),
+                        );
+                        return out;
+                    }
+                }
+            }
+            Call::Ok(v) => {
+                out.violate("batch entry point returned a wrong number of results", format!("{ep_name}({texts:?}) returned {} results", v.len()), case_json(&world, &texts, vec![]));
+                return out;
+            }
+            Call::Err(e) => {
+                out.violate("error on a valid batch of closed extended formulae", format!("{ep_name}({texts:?}) = Err({e})"), case_json(&world, &texts, vec![("context_sets", sets_json(&world, &sets)), ("entry_point", J::s(ep_name))]));
+                return out;
+            }
+            Call::Panic(p) => {
+                out.violate(&crate::libg::panic_signature(&p), format!("{ep_name}({texts:?}) panicked: {p}"), case_json(&world, &texts, vec![("context_sets", sets_json(&world, &sets))]));
+                return out;
+            }
         }
     }
     drain_events(&mut out);
